@@ -322,7 +322,9 @@ impl Envelope {
                 if !self.is_signature_from_key(&signature, key) {
                     return None;
                 }
-                Some(Ok(Some(signature_object.clone())))
+                // Assertions on a plain (unwrapped) signature object are covered by no
+                // signature, so they are not returned as metadata: only the signature is.
+                Some(Ok(Some(signature_object.subject())))
             } else if signature_object.is_obscured() {
                 // An elided, encrypted or compressed signature object cannot be
                 // checked; it must not prevent other signatures from being verified.
